@@ -255,6 +255,11 @@ def run(prop, tier, replay=None):
                 violations.append({"sig": "C13/goroutines-leaked/blocked-at-session-end",
                                    "what": "session goroutines still blocked after run() returned in %s" % c["scenario"]["id"],
                                    "replay": {"scenario": c["scenario"], "output": c["output"][-2500:], "trace": c["partial"]}})
+    race_cov = None
+    if prop == "C11" and not replay:
+        import sleeprace
+        rv, race_cov = sleeprace.run(tier, rnd)
+        violations += rv
     code, n_new, n_known = vlib.verdict(prop, violations)
     sample = None
     if traces:
@@ -270,7 +275,7 @@ def run(prop, tier, replay=None):
                     "(state, connect phase, event type, post-state) combinations exercised on the real code" % prop,
                exhaustive=(tier == "thorough"), mc=mc_info, steps=stat, crashes=len(crashes),
                desync=[d["sig"] for d in desync][:20], exact_output_match=dict(client=stat.get("exactC", 0), broker=stat.get("exactB", 0)),
-               known_findings=n_known)
+               known_findings=n_known, concurrency=race_cov)
     vlib.write_evidence(prop, tier, "model_checking", cov, time.time() - t0, violations=n_new,
                         assumptions=["A-quiescent: handler invocations are serialised by the step driver",
                                      "A-net: in-memory connections never fail", "A-timer: asynctimerchan=0",
